@@ -36,7 +36,24 @@ pub fn gen_glued(t: &mut Tape) -> Option<Glued> {
     let mut lines = Vec::new();
     let n = t.urange(1, 3);
     for _ in 0..n {
-        match t.draw(4) {
+        match if crate::engine::gen_version() >= 2 { t.draw(6) } else { t.draw(4) } {
+            4 => {
+                // v2: mnemonics that start with a digit (one Number token with letters in it: `2dup`)
+                rules.push("2dup => 0x58".to_string());
+                rules.push("2drop {x} => 0x59 @ x`8".to_string());
+                rules.push("1up {x} => 0x5a @ x`8".to_string());
+                match t.draw(3) {
+                    0 => lines.push(("2dup".to_string(), String::new())),
+                    1 => lines.push(("2drop".to_string(), t.draw(200).to_string())),
+                    _ => lines.push(("1up".to_string(), t.draw(200).to_string())),
+                }
+            }
+            5 => {
+                // v2: a dotted suffix that starts with a digit (`b.8h`)
+                rules.push("b.8h {x} => 0x5b @ x`8".to_string());
+                rules.push("b.16b {x} => 0x5c @ x`8".to_string());
+                lines.push((if t.flip() { "b.8h" } else { "b.16b" }.to_string(), t.draw(200).to_string()));
+            }
             0 => {
                 rules.push("wt {n}ms => 0x51 @ n`8".to_string());
                 if t.flip() {
